@@ -42,7 +42,7 @@ BUDGET = {"quick": 85, "thorough": 900}
 ROUNDS = {"thorough": 3}
 FLOORS = {"transitions": {"quick": 4000, "thorough": 40000}, "accepted": {"quick": 800, "thorough": 8000}, "rejected": {"quick": 800, "thorough": 8000},
           "hastings_checked": {"quick": 3000, "thorough": 30000}, "logger_rows": {"quick": 2000, "thorough": 20000}, "tune_calls": {"quick": 1500, "thorough": 15000},
-          "operator_types": 5, "nonfinite_proposals": {"quick": 40, "thorough": 400}, "tune_calls_adaptive_step_size": {"quick": 150, "thorough": 1500}, "adaptive_step_size_modes": 2, "hook_records": {"quick": 4000, "thorough": 40000},
+          "operator_types": 5, "nonfinite_proposals": {"quick": 40, "thorough": 400}, "tune_calls_adaptive_step_size": {"quick": 150, "thorough": 1500}, "adaptive_step_size_modes": 2, "resumed_runs": 2, "hook_records": {"quick": 4000, "thorough": 40000},
           "accepted:ScalerOperator": 30, "rejected:ScalerOperator": 30, "accepted:SlidingWindowOperator": 30, "rejected:SlidingWindowOperator": 30,
           "accepted:DirichletOperator": 30, "rejected:DirichletOperator": 30, "accepted:HMCOperator": 30, "rejected:HMCOperator": 30,
           "accepted:GMRFPiecewiseCoalescentBlockUpdatingOperator": 30, "rejected:GMRFPiecewiseCoalescentBlockUpdatingOperator": 30}
@@ -69,6 +69,11 @@ def cases(tier, seed):
                 out[-1]["adaptor"] = ad
                 out[-1]["adapt"] = True
                 out[-1]["single"] = False
+            elif (i // 2) % 8 == 5:
+                out[-1]["divergence_threshold"] = 0.5
+                out[-1]["single"] = False
+            if ad in ("dual+mass", "adaptive-rate"):
+                out[-1]["resume"] = True
     return out
 
 
@@ -101,6 +106,10 @@ def target_toy(case, rng):
            op("op.dirichlet", "DirichletOperator", ["s"], rng, case["adapt"], scaler=float(gm.loguniform(rng, 5, 200))),
            hmc_op("op.hmc", "joint", ["z"], 2, rng, case["adapt"], dense=bool(rng.random() < 0.5), eps=float(gm.loguniform(rng, 0.3, 1.8)), steps=int(rng.integers(1, 8))),
            op("op.slide2", "SlidingWindowOperator", ["x", "z"], rng, case["adapt"], width=float(gm.loguniform(rng, 0.2, 3)))]
+    if case.get("divergence_threshold"):
+        ops[3]["divergence_threshold"] = case["divergence_threshold"]  # documented HMCOperator option: report large energy errors
+        ops[3]["integrator"]["step_size"] = float(rng.uniform(1.2, 2.0))
+        ops[3]["weight"] = 6.0
     if case["adapt"] and case.get("adaptor"):
         kind = case["adaptor"]
         integ = "op.hmc.integrator"
@@ -305,6 +314,30 @@ def run_case(case):
         records = trace_run(case, dic, mcmc_mod, torch)
         check_records(case, dic, shadow, spec, records, meta, V, C, torch)
         check_log(case, logfile, shadow, logged, records, V, C, torch)
+        if case.get("resume") and not V:
+            # the run is resumed the way the entry point does it: a new object graph from the specification, the parameter values and the
+            # algorithm's state_dict (through JSON) put back, and on it goes - every resumed transition is judged like the others
+            import json
+
+            from torchtree.core.parameter_encoder import ParameterEncoder
+
+            from torchtree.core.utils import TensorDecoder
+
+            state = json.loads(json.dumps(dic["mcmc"].state_dict(), cls=ParameterEncoder), cls=TensorDecoder)  # as main() reads a checkpoint
+            carry = {}
+            for r in records:
+                if r.get("tune") is not None:
+                    c0 = carry.get(r["hook"]["operator"], (0, 0))
+                    carry[r["hook"]["operator"]] = (c0[0] + 1, c0[1] + int(bool(r["hook"]["accepted"])))
+            snap = leaf_snapshot(dic)
+            full2 = spec + [dict(mcmc, iterations=case["iterations"] + 60, loggers=[])]
+            _, dic2 = tt.load(full2)
+            set_leaves(dic2, snap)
+            dic2["mcmc"].load_state_dict(state)
+            records2 = trace_run(case, dic2, mcmc_mod, torch, carry)
+            C["resumed_runs"] = C.get("resumed_runs", 0) + 1
+            check_records(case, dic2, shadow, spec, records2, meta, V, C, torch)
+            records = records + records2
     finally:
         import shutil
 
@@ -317,14 +350,15 @@ def run_case(case):
     return {"violations": V, "counters": C, "fingerprint": None, "fingerprints": fps[:400], "sample": sample}
 
 
-def trace_run(case, dic, mcmc_mod, torch):
-    """run MCMC.run under the wrappers; -> list of per-iteration records"""
+def trace_run(case, dic, mcmc_mod, torch, carry=None):
+    """run MCMC.run under the wrappers; -> list of per-iteration records.  carry: operator id -> (tune calls, accepted) counted by
+    the monitor in the first part of a resumed run"""
     m = dic["mcmc"]
     records = []
     cur = {}
     draws = []
     for o in m._operators:
-        install(o, dic, cur, torch)
+        install(o, dic, cur, torch, (carry or {}).get(o.id))
     if mcmc_mod._VERIF_TRACE is None:
         raise RuntimeError("the MCMC trace hook is off (TORCHTREE_VERIF=1 not seen by torchtree)")
     del mcmc_mod._VERIF_TRACE[:]
@@ -357,7 +391,7 @@ def trace_run(case, dic, mcmc_mod, torch):
     return records
 
 
-def install(o, dic, cur, torch):
+def install(o, dic, cur, torch, carried=None):
     """wrap step / accept / reject / tune of one operator instance (and momentum / integrator for HMC)"""
     log = cur.setdefault("log", [])
     tname = type(o).__name__
@@ -384,7 +418,7 @@ def install(o, dic, cur, torch):
         cur["rec"]["after"] = leaf_snapshot(dic)
         cur["rec"]["decision_call"] = "reject"
 
-    running = {"calls": 0, "accepted": 0}
+    running = {"calls": carried[0] if carried else 0, "accepted": carried[1] if carried else 0}
 
     def tune(acceptance_prob, sample, accepted):
         b0 = boldness(o)
@@ -478,6 +512,11 @@ def check_records(case, dic, shadow, spec, records, meta, V, C, torch):
             return
         ref_hr = independent_hastings(r, tname, ss, cnt, where, detail, V, torch)
         if ref_hr == "violation":
+            return
+        if tname == "HMCOperator" and inf_hr and ref_hr is not None and len(r.get("momenta1", [])) == len(r.get("momenta0", [])):
+            # the last trajectory ran to its end (no numerical failure): its Hastings term is the finite change in kinetic energy,
+            # whatever the size of the energy error - the accept step decides on it
+            V.append(tt.viol("C15:hastings-ratio:HMCOperator:infinite-for-a-completed-trajectory", "%s: step() returned an infinite Hastings term although the trajectory completed; K(p0) - K(p1) = %.6g" % (where, ref_hr), **detail))
             return
         if ref_hr is not None and not inf_hr:
             C["hastings_checked"] += 1
